@@ -3,10 +3,17 @@
 //!     population stacks, call-logging objective, Sequential/Parallel evaluators, rayon pools,
 //!     identifiers Global and a custom one, missing evaluator;
 //! (2) a loop guarded by `LessThanN::evaluations(n)` (budget overshoot);
-//! (3) run level: every leaf step of runs of all 21 templates: counter delta vs. objective calls;
+//! (3) run level: every leaf step of runs of all 21 templates: counter delta vs. objective calls; (3b) `rerun`: the same
+//!     for 2..3 consecutive `Configuration::run`s of a template on one state;
 //! (4) the generic loop functions `heuristics::xx::xx::<P, I>` with `I = identifier::A` (`hcommon::templates_generic`):
 //!     runs on a state holding ONLY `Evaluator<P, A>` (must complete, count exact) and ONLY `Evaluator<P, Global>`
 //!     (must fail before anything executes); `--generic-trees` prints their serialised trees for the regenerated layer.
+//! (5) `cfgruns`: generated configuration TREES (evaluation steps at top level, inside `Scope`s of depth 1..3, inside
+//!     `Loop` / `Branch` bodies; iteration- and evaluation-budget loops) run through `Configuration::run` one after the
+//!     other ON THE SAME `State` (1..3 runs, same or different configurations), with registered and unregistered
+//!     evaluator identifiers;
+//! (6) `direct`: a single `PopulationEvaluator<I>` executed directly (`Component::execute`, no `Configuration::run`,
+//!     hence no `require`) on a state with / without `Evaluator<P, I>`.
 use std::collections::HashMap;
 use std::sync::{Arc, Mutex};
 
@@ -61,7 +68,7 @@ fn mk_ind(x: &Sx) -> Individual<P> {
 fn pools() -> &'static HashMap<usize, rayon::ThreadPool> {
     static POOLS: std::sync::OnceLock<HashMap<usize, rayon::ThreadPool>> = std::sync::OnceLock::new();
     POOLS.get_or_init(|| {
-        [1usize, 2, 4, 16].iter().map(|&n| (n, rayon::ThreadPoolBuilder::new().num_threads(n).build().unwrap())).collect()
+        [1usize, 2, 3, 4, 8, 16].iter().map(|&n| (n, rayon::ThreadPoolBuilder::new().num_threads(n).build().unwrap())).collect()
     })
 }
 
@@ -232,6 +239,244 @@ fn run_fa(a: &[Sx]) -> String {
     format!("((res {}) (evals {}) (callsA {}) (callsG {}))", res, evals, pa.count(), pg.count())
 }
 
+// ---------------------------------------------------------------------------------------------------------------
+// (5) configuration trees, consecutive runs on one State
+
+const REC_LIMIT: usize = 20000;
+
+#[derive(Clone)]
+struct Cx {
+    recs: Arc<Mutex<Vec<String>>>,
+    seen: Arc<Mutex<usize>>,
+    e0: Arc<Mutex<String>>,
+}
+impl Cx {
+    fn rec(&self, s: String) {
+        let mut r = self.recs.lock().unwrap();
+        if r.len() >= REC_LIMIT {
+            drop(r);
+            panic!("runaway configuration");
+        }
+        r.push(s);
+    }
+}
+fn vis(state: &State<P>) -> String { on(state.try_get_value::<Evaluations>().ok()) }
+
+type Builder = mahf::configuration::ConfigurationBuilder<P>;
+
+fn mark(b: Builder, cx: &Cx, what: &'static str, with_evals: bool) -> Builder {
+    let cx = cx.clone();
+    b.debug(move |_p: &P, state: &mut State<P>| {
+        if with_evals { cx.rec(format!("({} {})", what, vis(state))) } else { cx.rec(format!("({})", what)) }
+    })
+}
+
+/// STEP := (push POP) | (pop) | (eval g|a|b) | (scope STEP…) | (loop-iter K (body STEP…)) | (loop-evals N (body STEP…))
+///       | (branch N (then STEP…) [(else STEP…)])      -- condition of a branch: evaluations < N
+fn build_steps(mut b: Builder, steps: &[Sx], cx: &Cx) -> Builder {
+    for st in steps {
+        let (name, args) = st.head().unwrap();
+        b = match name {
+            "push" => {
+                let pop: Vec<Individual<P>> = args[0].items().unwrap().iter().map(mk_ind).collect();
+                b.debug(move |_p, state: &mut State<P>| state.populations_mut().push(pop.clone()))
+            }
+            "pop" => b.debug(|_p, state: &mut State<P>| { state.populations_mut().pop(); }),
+            "eval" => {
+                let c0 = cx.clone();
+                b = b.debug(move |_p: &P, state: &mut State<P>| *c0.e0.lock().unwrap() = vis(state));
+                b = match args[0].atom().unwrap() {
+                    "g" => b.evaluate(),
+                    "a" => b.evaluate_with::<CustomId>(),
+                    "b" => b.evaluate_with::<mahf::identifier::B>(),
+                    other => panic!("unknown identifier {other}"),
+                };
+                let c1 = cx.clone();
+                b.debug(move |p: &P, state: &mut State<P>| {
+                    let calls = {
+                        let log = p.log.lock().unwrap();
+                        let mut seen = c1.seen.lock().unwrap();
+                        let c = tagged("calls", log[*seen..].iter().map(|s| s.to_string()));
+                        *seen = log.len();
+                        c
+                    };
+                    let top = match state.populations().get_current() {
+                        None => "notop".to_string(),
+                        Some(t) => tagged("top", t.iter().map(ind_s)),
+                    };
+                    let e0 = c1.e0.lock().unwrap().clone();
+                    c1.rec(format!("(ev {} {} {} {})", e0, vis(state), calls, top));
+                })
+            }
+            "scope" => {
+                let b = b.scope_(|inner| build_steps(mark(inner, cx, "in", false), args, cx));
+                mark(b, cx, "out", false)
+            }
+            "loop-iter" | "loop-evals" => {
+                let n = args[0].nat().unwrap() as u32;
+                let body = args[1].head().unwrap().1;
+                let cond = if name == "loop-iter" { LessThanN::iterations(n) } else { LessThanN::evaluations(n) };
+                let b = b.while_(cond, |inner| build_steps(mark(inner, cx, "p", true), body, cx));
+                mark(b, cx, "x", true)
+            }
+            "branch" => {
+                let n = args[0].nat().unwrap() as u32;
+                let thn = args[1].head().unwrap().1;
+                let b = if args.len() > 2 {
+                    let els = args[2].head().unwrap().1;
+                    b.if_else_(
+                        LessThanN::evaluations(n),
+                        |inner| build_steps(mark(inner, cx, "bt", false), thn, cx),
+                        |inner| build_steps(mark(inner, cx, "be", false), els, cx),
+                    )
+                } else {
+                    b.if_(LessThanN::evaluations(n), |inner| build_steps(mark(inner, cx, "bt", false), thn, cx))
+                };
+                mark(b, cx, "bx", false)
+            }
+            other => panic!("unknown step {other}"),
+        };
+    }
+    b
+}
+
+fn register(state: &mut State<P>, reg: &[String], par: bool) {
+    for r in reg {
+        match (r.as_str(), par) {
+            ("g", false) => state.insert_evaluator(Sequential::<P>::new()),
+            ("g", true) => state.insert_evaluator(Parallel::<P>::new()),
+            ("a", false) => state.insert_evaluator_as::<CustomId>(Sequential::<P>::new()),
+            ("a", true) => state.insert_evaluator_as::<CustomId>(Parallel::<P>::new()),
+            ("b", false) => state.insert_evaluator_as::<mahf::identifier::B>(Sequential::<P>::new()),
+            ("b", true) => state.insert_evaluator_as::<mahf::identifier::B>(Parallel::<P>::new()),
+            _ => {}
+        }
+    }
+}
+
+/// `(cfgruns (ev seq|par T) (reg ID…) (f x…) (cfgs (cfg STEP…)…) (order i…))`: the configurations `order` names are run
+/// one after the other through `Configuration::run` on ONE state. Output: per executed run
+/// `(run (res …) (evs REC…) (final (evals E) (ncalls K) (stack …)))` (`ncalls`: objective calls made during this run);
+/// the sequence stops after the first run that does not return `Ok`; after a panic only `(run (res panic))`.
+fn run_cfgruns(a: &[Sx]) -> String {
+    let (_, ev) = a[0].head().unwrap();
+    let par = ev[0].atom().unwrap() == "par";
+    let threads = ev[1].nat().unwrap() as usize;
+    let reg: Vec<String> = a[1].head().unwrap().1.iter().map(|x| x.atom().unwrap().to_string()).collect();
+    let ftab: Vec<f64> = a[2].head().unwrap().1.iter().map(|x| x.float().unwrap()).collect();
+    let cfgs = a[3].head().unwrap().1.to_vec();
+    let order: Vec<usize> = a[4].head().unwrap().1.iter().map(|x| x.nat().unwrap() as usize).collect();
+    in_pool(threads, move || {
+        let problem = TableProblem { f: Arc::new(ftab), log: Default::default() };
+        let cx = Cx { recs: Default::default(), seen: Default::default(), e0: Arc::new(Mutex::new("none".into())) };
+        let configs: Vec<Configuration<P>> =
+            cfgs.iter().map(|c| build_steps(Configuration::<P>::builder(), c.head().unwrap().1, &cx).build()).collect();
+        let mut state: State<P> = State::new();
+        state.insert(Populations::<P>::new());
+        register(&mut state, &reg, par);
+        let mut outs = vec![];
+        for &k in &order {
+            let Some(config) = configs.get(k) else { break };
+            cx.recs.lock().unwrap().clear();
+            let calls0 = problem.log.lock().unwrap().len();
+            *cx.seen.lock().unwrap() = calls0;
+            let r = catch(|| config.run(&problem, &mut state));
+            let res = match &r {
+                None => {
+                    outs.push("(run (res panic))".to_string());
+                    break;
+                }
+                Some(Ok(())) => "(res ok)".to_string(),
+                Some(Err(_)) => "(res (e err))".to_string(),
+            };
+            let evals = on(state.try_get_value::<Evaluations>().ok());
+            let ncalls = problem.log.lock().unwrap().len() - calls0;
+            let stack = catch(|| {
+                let pops = state.populations();
+                (0..pops.len()).map(|d| pop_s(pops.peek(d))).collect::<Vec<_>>()
+            })
+            .unwrap_or_default();
+            let recs = cx.recs.lock().unwrap().clone();
+            outs.push(tagged("run", [res.clone(), tagged("evs", recs), format!("(final (evals {}) (ncalls {}) {})", evals, ncalls, tagged("stack", stack))]));
+            if res != "(res ok)" { break; }
+        }
+        list(outs)
+    })
+}
+
+/// Site of a `cfgruns` case, from the shape of its input: is some evaluation step nested in a `Scope` (its counter is a
+/// shadowing one), is some requested identifier unregistered, and if so is one of those steps outside every `Scope`
+/// (`require` sees it up front) or are they all inside `Scope`s (checked on scope entry only).
+fn cfgruns_site(a: &[Sx]) -> String {
+    let reg: Vec<&str> = a[1].head().unwrap().1.iter().map(|x| x.atom().unwrap()).collect();
+    fn walk(steps: &[Sx], depth: usize, reg: &[&str], scoped: &mut bool, miss_top: &mut bool, miss_scope: &mut bool) {
+        for st in steps {
+            let (name, args) = st.head().unwrap();
+            match name {
+                "eval" => {
+                    if depth > 0 { *scoped = true; }
+                    if !reg.contains(&args[0].atom().unwrap()) {
+                        if depth > 0 { *miss_scope = true } else { *miss_top = true }
+                    }
+                }
+                "scope" => walk(args, depth + 1, reg, scoped, miss_top, miss_scope),
+                "loop-iter" | "loop-evals" => walk(args[1].head().unwrap().1, depth, reg, scoped, miss_top, miss_scope),
+                "branch" => {
+                    for arm in &args[1..] { walk(arm.head().unwrap().1, depth, reg, scoped, miss_top, miss_scope); }
+                }
+                _ => {}
+            }
+        }
+    }
+    let (mut scoped, mut mt, mut ms) = (false, false, false);
+    for c in a[3].head().unwrap().1 { walk(c.head().unwrap().1, 0, &reg, &mut scoped, &mut mt, &mut ms); }
+    format!("ConfigRun{}{}", if scoped { "/scoped" } else { "" }, if mt { "/missing" } else if ms { "/missing-in-scope" } else { "" })
+}
+
+/// `(direct (ev seq|par T) (reg ID…) (f x…) (id g|a|b) (init 0|1) (stack POP…))`: one `PopulationEvaluator<I>` executed
+/// directly — `Component::init` (if `init 1`) and `Component::execute`, no `Configuration::run`, no `require`.
+fn run_direct(a: &[Sx]) -> String {
+    use mahf::components::evaluation::PopulationEvaluator;
+    let (_, ev) = a[0].head().unwrap();
+    let par = ev[0].atom().unwrap() == "par";
+    let threads = ev[1].nat().unwrap() as usize;
+    let reg: Vec<String> = a[1].head().unwrap().1.iter().map(|x| x.atom().unwrap().to_string()).collect();
+    let ftab: Vec<f64> = a[2].head().unwrap().1.iter().map(|x| x.float().unwrap()).collect();
+    let id = a[3].head().unwrap().1[0].atom().unwrap().to_string();
+    let init = a[4].head().unwrap().1[0].nat().unwrap() == 1;
+    let pops: Vec<Vec<Individual<P>>> = a[5].head().unwrap().1.iter().map(|p| p.items().unwrap().iter().map(mk_ind).collect()).collect();
+    in_pool(threads, move || {
+        let problem = TableProblem { f: Arc::new(ftab), log: Default::default() };
+        let comp: Box<dyn mahf::Component<P>> = match id.as_str() {
+            "g" => PopulationEvaluator::<mahf::identifier::Global>::new_with::<P>(),
+            "a" => PopulationEvaluator::<CustomId>::new_with::<P>(),
+            _ => PopulationEvaluator::<mahf::identifier::B>::new_with::<P>(),
+        };
+        let mut state: State<P> = State::new();
+        let mut stack = Populations::<P>::new();
+        for p in pops.into_iter().rev() { stack.push(p); }
+        state.insert(stack);
+        register(&mut state, &reg, par);
+        let r = catch(|| {
+            if init { comp.init(&problem, &mut state)?; }
+            comp.execute(&problem, &mut state)
+        });
+        let res = match &r {
+            None => return "((res panic))".to_string(),
+            Some(Ok(())) => "(res ok)".to_string(),
+            Some(Err(_)) => "(res err)".to_string(),
+        };
+        let evals = on(state.try_get_value::<Evaluations>().ok());
+        let calls: Vec<String> = problem.log.lock().unwrap().iter().map(|s| s.to_string()).collect();
+        let stack = catch(|| {
+            let pops = state.populations();
+            (0..pops.len()).map(|d| pop_s(pops.peek(d))).collect::<Vec<_>>()
+        })
+        .unwrap_or_default();
+        list([res, format!("(evals {})", evals), tagged("calls", calls), tagged("stack", stack)])
+    })
+}
+
 /// Visitor for run-level counting.
 struct Counting {
     frames: Vec<(u64, Option<u32>, usize, usize)>, // probe count, visible evals, top size, number of children
@@ -239,6 +484,7 @@ struct Counting {
     events: Vec<String>,
     result: String,
     nsteps: u64,                                   // observer callbacks (Phase::Before) = components/passes started
+    base: u64,                                     // probe count when this run started (consecutive runs on one state)
 }
 fn short(name: &str) -> String {
     let base = name.split('<').next().unwrap_or(name);
@@ -293,7 +539,7 @@ impl Visitor for Counting {
             format!("(out {})", outcome.tag()),
             tagged("trace", self.events.clone()),
             format!("(evals {})", on(evals)),
-            format!("(ncalls {})", problem.probe().count()),
+            format!("(ncalls {})", problem.probe().count() - self.base),
         ]);
     }
 }
@@ -303,10 +549,72 @@ fn run_run(a: &[Sx]) -> String {
     let name = a[0].atom().unwrap();
     let (v, i, iters, seed) = (a[1].nat().unwrap() as u32, a[2].nat().unwrap() as u32, a[3].nat().unwrap() as u32, a[4].nat().unwrap());
     let ek = if a[5].atom().unwrap() == "par" { EvalKind::Parallel } else { EvalKind::Sequential };
-    let vis = Counting { frames: vec![], scopes: vec![], events: vec![], result: String::new(), nsteps: 0 };
+    let vis = Counting { frames: vec![], scopes: vec![], events: vec![], result: String::new(), nsteps: 0, base: 0 };
     match run_template(name, v, i, iters, seed, ek, vis) {
         Ok((vis, _)) => vis.result,
         Err(_) => "((out ctor-err) (trace) (evals none) (ncalls 0))".into(),
+    }
+}
+
+/// `(rerun NAME V I ITERS SEED seq|par K)`: template `NAME` run `K` times through `Configuration::run` on ONE state
+/// (prepared as `optimize_with` prepares it). Output: the run-level record of `run_run` for every run, `ncalls` being the
+/// objective calls of that run; the sequence stops after the first run that does not return `Ok`.
+struct Rerun {
+    seed: u64,
+    eval: EvalKind,
+    k: u64,
+}
+impl ConfigUser for Rerun {
+    type Out = String;
+    fn use_config<Q: HProblem>(self, config: &Configuration<Q>, problem: &Q) -> String {
+        use mahf::verif::StepObserver;
+        let new_vis = |base: u64| Counting { frames: vec![], scopes: vec![], events: vec![], result: String::new(), nsteps: 0, base };
+        let shared = Arc::new(Mutex::new(new_vis(0)));
+        let mut outs = vec![];
+        let mut state: State<Q> = State::new();
+        state.insert(mahf::logging::Log::new());
+        state.insert(Populations::<Q>::new());
+        state.insert(mahf::Random::new(self.seed));
+        match self.eval {
+            EvalKind::Sequential => state.insert_evaluator(Sequential::<Q>::new()),
+            EvalKind::Parallel => state.insert_evaluator(Parallel::<Q>::new()),
+        }
+        let (obs_v, obs_p) = (shared.clone(), problem.clone());
+        state.insert(StepObserver::<Q>(Box::new(move |ph, name, idx, st| {
+            obs_v.lock().unwrap_or_else(|e| e.into_inner()).step(ph, name, idx, st, &obs_p);
+        })));
+        for _ in 0..self.k {
+            *shared.lock().unwrap_or_else(|e| e.into_inner()) = new_vis(problem.probe().count());
+            let r = catch(|| config.run(problem, &mut state));
+            let mut g = shared.lock().unwrap_or_else(|e| e.into_inner());
+            match r {
+                None => {
+                    g.done::<Q>(&Outcome::Panic, None, problem);
+                    outs.push(g.result.clone());
+                    break;
+                }
+                Some(Err(e)) => {
+                    g.done::<Q>(&Outcome::Err(format!("{e}")), None, problem);
+                    outs.push(g.result.clone());
+                    break;
+                }
+                Some(Ok(())) => {
+                    g.done(&Outcome::Ok, Some(&state), problem);
+                    outs.push(g.result.clone());
+                }
+            }
+        }
+        list(outs)
+    }
+}
+fn run_rerun(a: &[Sx]) -> String {
+    let name = a[0].atom().unwrap();
+    let (v, i, iters, seed) = (a[1].nat().unwrap() as u32, a[2].nat().unwrap() as u32, a[3].nat().unwrap() as u32, a[4].nat().unwrap());
+    let eval = if a[5].atom().unwrap() == "par" { EvalKind::Parallel } else { EvalKind::Sequential };
+    let k = a[6].nat().unwrap();
+    match with_template(name, v, i, iters, Rerun { seed, eval, k }) {
+        Ok(s) => s,
+        Err(_) => "(((out ctor-err) (trace) (evals none) (ncalls 0)))".into(),
     }
 }
 
@@ -320,7 +628,7 @@ fn run_generic_case(a: &[Sx]) -> String {
     let ek = if a[5].atom().unwrap() == "par" { EvalKind::Parallel } else { EvalKind::Sequential };
     let reg = if a[6].atom().unwrap() == "only-a" { Registered::OnlyA } else { Registered::OnlyGlobal };
     let tree = generic_tree(name, v, iters);
-    let vis = Counting { frames: vec![], scopes: vec![], events: vec![], result: String::new(), nsteps: 0 };
+    let vis = Counting { frames: vec![], scopes: vec![], events: vec![], result: String::new(), nsteps: 0, base: 0 };
     match run_generic(name, v, i, iters, seed, ek, reg, vis) {
         Ok((vis, outcome)) => {
             let out = match &outcome {
@@ -344,6 +652,9 @@ fn run_case(input: &Sx) -> (String, String) {
         "run" => (a[0].atom().unwrap().to_string(), run_run(a)),
         "fa" => ("FireflyPositionsUpdate".into(), run_fa(a)),
         "generic" => (format!("generic/{}", a[0].atom().unwrap()), run_generic_case(a)),
+        "rerun" => (a[0].atom().unwrap().to_string(), run_rerun(a)),
+        "cfgruns" => (cfgruns_site(a), run_cfgruns(a)),
+        "direct" => ("PopulationEvaluator::execute".into(), run_direct(a)),
         other => panic!("unknown case {other}"),
     }
 }
@@ -359,6 +670,106 @@ fn gen_pop(r: &mut Sm, n: u64, nsol: u64, ftab: &[f64]) -> String {
             _ => format!("({})", s),
         }
     }))
+}
+
+/// Generator of configuration trees (stream 5).
+struct TreeGen<'a> {
+    r: &'a mut Sm,
+    nsol: u64,
+    ft: &'a [f64],
+}
+impl TreeGen<'_> {
+    fn pop(&mut self, lo: u64, hi: u64) -> String {
+        let n = self.r.range(lo, hi);
+        gen_pop(self.r, n, self.nsol, self.ft)
+    }
+    /// A random body. `ids`: identifiers evaluation steps may name (empty: no evaluation step); `evcond`: a counter is
+    /// visible, so conditions on the number of evaluations may be used; `scope_ids`: identifiers for steps inside scopes.
+    fn body(&mut self, depth: u32, ids: &[&str], scope_ids: &[&str], evcond: bool) -> Vec<String> {
+        let len = self.r.range(1, 4);
+        let mut out = vec![];
+        for _ in 0..len {
+            let k = self.r.below(20);
+            match k {
+                6..=10 if !ids.is_empty() => out.push(format!("(eval {})", self.r.pick(ids))),
+                11 if !ids.is_empty() => {
+                    out.push(format!("(push {})", self.pop(1, 5)));
+                    out.push(format!("(eval {})", self.r.pick(ids)));
+                    out.push("(pop)".into());
+                }
+                12..=13 if depth < 3 => {
+                    let b = self.body(depth + 1, scope_ids, scope_ids, evcond);
+                    out.push(tagged("scope", b));
+                }
+                14..=15 if depth < 3 => {
+                    let k = self.r.below(4);
+                    let b = self.body(depth + 1, ids, scope_ids, evcond);
+                    out.push(format!("(loop-iter {} {})", k, tagged("body", b)));
+                }
+                16..=17 if depth < 3 && evcond && !ids.is_empty() => {
+                    let n = self.r.below(31);
+                    let mut b = vec![format!("(push {})", self.pop(1, 6)), format!("(eval {})", self.r.pick(ids))];
+                    if self.r.chance(1, 2) { b.push("(pop)".into()); }
+                    if self.r.chance(1, 2) { b.extend(self.body(depth + 1, ids, scope_ids, evcond)); }
+                    out.push(format!("(loop-evals {} {})", n, tagged("body", b)));
+                }
+                18..=19 if depth < 3 && evcond => {
+                    let n = self.r.below(31);
+                    let t = self.body(depth + 1, ids, scope_ids, evcond);
+                    if self.r.chance(1, 2) {
+                        let e = self.body(depth + 1, ids, scope_ids, evcond);
+                        out.push(format!("(branch {} {} {})", n, tagged("then", t), tagged("else", e)));
+                    } else {
+                        out.push(format!("(branch {} {})", n, tagged("then", t)));
+                    }
+                }
+                _ => out.push(format!("(push {})", self.pop(0, 6))),
+            }
+        }
+        out
+    }
+    /// One configuration: optionally an initial `push; eval` (so the top-level counter exists), then a random body.
+    fn cfg(&mut self, ids: &[&str], scope_ids: &[&str]) -> String {
+        let mut steps = vec![];
+        let evcond = !ids.is_empty() && self.r.chance(6, 7);
+        if evcond {
+            steps.push(format!("(push {})", self.pop(0, 6)));
+            steps.push(format!("(eval {})", self.r.pick(ids)));
+        }
+        steps.extend(self.body(0, ids, scope_ids, evcond));
+        tagged("cfg", steps)
+    }
+}
+
+/// Where the step with the unregistered identifier sits.
+const POSITIONS: [&str; 16] = [
+    "top", "scope1", "scope2", "scope3", "loop", "loop0", "then", "then-not-taken", "else", "else-not-taken", "scope-in-loop",
+    "loop-in-scope", "scope-in-loop0", "scope-in-then-not-taken", "scope-in-else", "scope2-in-loop",
+];
+fn wrap(position: &str, inner: Vec<String>) -> Vec<String> {
+    let sc = |x: Vec<String>| vec![tagged("scope", x)];
+    let lp = |k: u32, x: Vec<String>| vec![format!("(loop-iter {} {})", k, tagged("body", x))];
+    let br_then = |n: u32, x: Vec<String>| vec![format!("(branch {} {})", n, tagged("then", x))];
+    let br_else = |n: u32, x: Vec<String>| vec![format!("(branch {} (then (push ())) {})", n, tagged("else", x))];
+    match position {
+        "top" => inner,
+        "scope1" => sc(inner),
+        "scope2" => sc(sc(inner)),
+        "scope3" => sc(sc(sc(inner))),
+        "loop" => lp(2, inner),
+        "loop0" => lp(0, inner),
+        "then" => br_then(1000, inner),
+        "then-not-taken" => br_then(0, inner),
+        "else" => br_else(0, inner),
+        "else-not-taken" => br_else(1000, inner),
+        "scope-in-loop" => lp(2, sc(inner)),
+        "loop-in-scope" => sc(lp(2, inner)),
+        "scope-in-loop0" => lp(0, sc(inner)),
+        "scope-in-then-not-taken" => br_then(0, sc(inner)),
+        "scope-in-else" => br_else(0, sc(inner)),
+        "scope2-in-loop" => lp(1, sc(sc(inner))),
+        other => panic!("unknown position {other}"),
+    }
 }
 
 fn main() {
@@ -399,6 +810,34 @@ fn main() {
             emit(format!("(evalsteps (ev {kind} {threads}) (reg g a) {} (steps (push {pop}) (eval {id})))", ft_s(&ft)));
         }
     }
+    // 1c. sizes around powers of two and chunk boundaries, up to a few thousand, plus random sizes
+    let big: &[u64] = if a.thorough {
+        &[51, 63, 64, 65, 95, 96, 97, 100, 127, 128, 129, 191, 192, 193, 255, 256, 257, 511, 512, 513, 1000, 1023, 1024, 1025, 2047, 2048, 2049, 4095, 4096, 4097]
+    } else {
+        &[63, 64, 65, 100, 127, 128, 129, 255, 256, 257, 1000, 1025, 4097]
+    };
+    for &n in big {
+        let kinds: &[(&str, u64)] = if n <= 300 {
+            &[("seq", 0), ("seq", 3), ("par", 0), ("par", 1), ("par", 2), ("par", 3), ("par", 4), ("par", 8), ("par", 16)]
+        } else {
+            &[("seq", 0), ("par", 0), ("par", 1), ("par", 3), ("par", 16)]
+        };
+        for &(kind, threads) in kinds {
+            let ft = mk_ftab(&mut r);
+            let id = if (n + threads) % 2 == 0 { "g" } else { "a" };
+            let pop = gen_pop(&mut r, n, nsol, &ft);
+            emit(format!("(evalsteps (ev {kind} {threads}) (reg g a) {} (steps (push {pop}) (eval {id})))", ft_s(&ft)));
+        }
+    }
+    for _ in 0..(if a.thorough { 60 } else { 10 }) {
+        let n = if r.chance(1, 2) { r.range(51, 700) } else { r.range(701, 5000) };
+        let (kind, threads) = *r.pick(&[("seq", 0u64), ("par", 0), ("par", 1), ("par", 2), ("par", 3), ("par", 4), ("par", 8), ("par", 16)]);
+        let ft = mk_ftab(&mut r);
+        let pop = gen_pop(&mut r, n, nsol, &ft);
+        let n2 = r.range(0, 90);
+        let pop2 = gen_pop(&mut r, n2, nsol, &ft);
+        emit(format!("(evalsteps (ev {kind} {threads}) (reg g a) {} (steps (push {pop2}) (eval a) (push {pop}) (eval g) (eval a)))", ft_s(&ft)));
+    }
     // 1b. random step sequences, incl. empty stack, missing evaluator, several populations
     let n_rand = if a.thorough { 12000 } else { 1200 };
     for _ in 0..n_rand {
@@ -438,6 +877,102 @@ fn main() {
             }
         }
     }
+    // 5. configuration trees, consecutive runs on one state
+    let evk = [("seq", 0u64), ("seq", 4), ("par", 0), ("par", 1), ("par", 2), ("par", 3), ("par", 8), ("par", 16)];
+    // 5a. budget configurations run 2..3 times on the same state (same / different configuration)
+    for n in [0u64, 1, 5, 10, 17] {
+        for m in [1u64, 4] {
+            for (j, order) in ["0 0", "0 0 0", "0 1", "0 1 0", "1 0 1"].iter().enumerate() {
+                let ft = mk_ftab(&mut r);
+                let (kind, threads) = evk[(n as usize + m as usize + j) % evk.len()];
+                let mut g = TreeGen { r: &mut r, nsol, ft: &ft };
+                let c0 = format!("(cfg (push {}) (eval g) (loop-evals {} (body (push {}) (eval g) (pop))))", g.pop(m, m), n, g.pop(m, m));
+                let c1 = format!("(cfg (push {}) (eval a) (loop-evals {} (body (eval a))) (eval g))", g.pop(m + 1, m + 1), n + 3);
+                emit(format!("(cfgruns (ev {kind} {threads}) (reg g a) {} (cfgs {c0} {c1}) (order {order}))", ft_s(&ft)));
+            }
+        }
+    }
+    // 5b. random trees, all identifiers registered; half of the cases without evaluation steps inside scopes
+    for i in 0..(if a.thorough { 4000 } else { 400 }) {
+        let ft = mk_ftab(&mut r);
+        let (kind, threads) = *r.pick(&evk);
+        let scoped = i % 2 == 1;
+        let ncfg = r.range(1, 3);
+        let mut g = TreeGen { r: &mut r, nsol, ft: &ft };
+        let ids: &[&str] = &["g", "g", "a", "b"];
+        let cfgs: Vec<String> = (0..ncfg).map(|_| g.cfg(ids, if scoped { ids } else { &[] })).collect();
+        let nrun = r.range(1, 3);
+        let order: Vec<String> = (0..nrun).map(|_| r.below(ncfg).to_string()).collect();
+        emit(format!("(cfgruns (ev {kind} {threads}) (reg g a b) {} {} {})", ft_s(&ft), tagged("cfgs", cfgs), tagged("order", order)));
+    }
+    // 5c. an unregistered identifier at every position, as the only evaluator use or one of several
+    let regs: [(&str, &str, &str); 5] = [("g", "a", "g"), ("a", "g", "a"), ("g a", "b", "a"), ("", "g", "g"), ("g b", "a", "b")];
+    for (pi, position) in POSITIONS.iter().enumerate() {
+        for several in [false, true] {
+            for (ri, (reg, missing, registered)) in regs.iter().enumerate() {
+                if reg.is_empty() && several { continue; }
+                let ft = mk_ftab(&mut r);
+                let (kind, threads) = evk[(pi + ri) % evk.len()];
+                let mut g = TreeGen { r: &mut r, nsol, ft: &ft };
+                let mut inner = vec![];
+                if (pi + ri) % 3 != 0 { inner.push(format!("(push {})", g.pop(1, 4))); }
+                if several && ri % 2 == 0 { inner.push(format!("(eval {registered})")); }
+                inner.push(format!("(eval {missing})"));
+                let mut steps = vec![];
+                // conditions on the number of evaluations need a visible counter: a registered step up front
+                let needs_counter = position.contains("then") || position.contains("else");
+                if several || needs_counter {
+                    if reg.is_empty() { continue; }
+                    steps.push(format!("(push {})", g.pop(1, 4)));
+                    steps.push(format!("(eval {registered})"));
+                } else if (pi + ri) % 2 == 0 {
+                    steps.push(format!("(push {})", g.pop(1, 4)));
+                }
+                steps.extend(wrap(position, inner));
+                if several && ri % 2 == 1 { steps.push(format!("(eval {registered})")); }
+                let miss_cfg = tagged("cfg", steps);
+                // alone, or as the last of two runs after a run that uses registered identifiers only
+                if (pi + ri) % 4 == 3 && !reg.is_empty() {
+                    let first = format!("(cfg (push {}) (eval {registered}) (loop-iter 2 (body (eval {registered}))))", g.pop(1, 4));
+                    emit(format!("(cfgruns (ev {kind} {threads}) (reg {reg}) {} (cfgs {first} {miss_cfg}) (order 0 1))", ft_s(&ft)));
+                } else {
+                    emit(format!("(cfgruns (ev {kind} {threads}) (reg {reg}) {} (cfgs {miss_cfg}) (order 0))", ft_s(&ft)));
+                }
+            }
+        }
+    }
+    // 5d. random trees in which one of the identifiers is not registered
+    for i in 0..(if a.thorough { 1500 } else { 150 }) {
+        let ft = mk_ftab(&mut r);
+        let (kind, threads) = *r.pick(&evk);
+        let (reg, ids, scope_ids): (&str, &[&str], &[&str]) = match i % 4 {
+            0 => ("g", &["g", "g", "g", "a"], &["g", "a"]),
+            1 => ("g a", &["g", "a"], &["g", "a", "b"]),
+            2 => ("a", &["a"], &["g"]),
+            _ => ("g b", &["g", "b"], &["a", "b", "g"]),
+        };
+        let mut g = TreeGen { r: &mut r, nsol, ft: &ft };
+        let c = g.cfg(ids, scope_ids);
+        emit(format!("(cfgruns (ev {kind} {threads}) (reg {reg}) {} (cfgs {c}) (order 0))", ft_s(&ft)));
+    }
+    // 6. a single evaluation step executed directly on a state with / without its evaluator
+    for n in [0u64, 1, 3, 7, 40] {
+        for id in ["g", "a", "b"] {
+            for reg in ["g a b", "g", "a", "b", "", "g a", "a b"] {
+                for init in [1, 0] {
+                    if init == 0 && (n + id.len() as u64 + reg.len() as u64) % 3 != 0 { continue; }
+                    let ft = mk_ftab(&mut r);
+                    let (kind, threads) = *r.pick(&evk);
+                    let depth = r.range(0, 2);
+                    let mut pops = vec![];
+                    if n > 0 || depth > 0 { pops.push(gen_pop(&mut r, n, nsol, &ft)); }
+                    for _ in 0..depth { let k = r.below(4); pops.push(gen_pop(&mut r, k, nsol, &ft)); }
+                    if n == 0 && r.chance(1, 2) { pops.clear(); }
+                    emit(format!("(direct (ev {kind} {threads}) (reg {reg}) {} (id {id}) (init {init}) {})", ft_s(&ft), tagged("stack", pops)));
+                }
+            }
+        }
+    }
     // 3. run level
     let seeds: u64 = if a.thorough { 8 } else { 1 };
     let iters = if a.thorough { 8 } else { 5 };
@@ -449,6 +984,18 @@ fn main() {
                     let ek = if (v + i + k as u32) % 3 == 0 { "par" } else { "seq" };
                     emit(format!("(run {name} {v} {i} {iters} {seed} {ek})"));
                 }
+            }
+        }
+    }
+    // 3b. run level, consecutive runs of one template on one state
+    for name in TEMPLATES {
+        for v in 0..N_VARIANTS {
+            for k in 0..(if a.thorough { 6 } else { 1 }) {
+                let i = (v as u64 + k) % N_INSTANCES as u64;
+                let seed = a.seed * 1000 + 500 + k;
+                let ek = if (v as u64 + k) % 2 == 0 { "par" } else { "seq" };
+                let runs = 2 + (v as u64 + k) % 2;
+                emit(format!("(rerun {name} {v} {i} {iters} {seed} {ek} {runs})"));
             }
         }
     }
